@@ -25,7 +25,7 @@ from vf.oracle import dyn, kin
 from vf.runner import Violation
 
 EPS = np.finfo(np.float64).eps
-K_V = 50           # velocity update, scale cond(Mhat)*(|v| + h|a|)     (worst observed ~0.4 eps*cond)
+K_V = 200          # velocity update, scale cond(Mhat)*(|v| + h|a|)     (worst observed ~1.7 eps*cond, thorough)
 K_Q = 64           # position update given the velocity (quaternion exp), scale (1+|q|)  (worst observed ~0.6 eps)
 K_ACT = 16         # activation update (observed: bit-exact)
 COND_MAX = 1e8
